@@ -373,6 +373,12 @@ Definition read_mem {A} (l : list A) (ps : Z) (tok : bytes) : outcome A :=
   read_cmd (page_offset l) ps tok.
 Definition read_sql {A} (rows : list (bytes * A)) (ps : Z) (tok : bytes) : outcome A :=
   read_cmd (page_keyset ble rows) ps tok.
+(* the invariant of the memory changelog that resuming with `ulid > token` relies on: the log is in
+   strictly increasing ULID order.  memory.Write keeps it by drawing the timestamp and the
+   (monotonic) entropy of every changelog ULID while it holds the tuples lock. *)
+Definition changes_sorted_by_ulid {A} (rows : list (bytes * A)) : bool :=
+  strictly_sorted (map (fun r => norm_key ulid_parse (fst r)) rows).
+
 Definition changes_mem {A} (rows : list (bytes * A)) (ps : Z) (ty tok : bytes) : outcome A :=
   changes_cmd (changes_page ulid_parse false rows) ps ty tok.
 Definition changes_sql {A} (rows : list (bytes * A)) (ps : Z) (ty tok : bytes) : outcome A :=
